@@ -179,3 +179,49 @@ func AppendTooBig(cp, headLen, tailLen int, listing int) {
 	vp.Assert("appended-length", b.Len() == headLen+tail)
 	vp.Reach("appended")
 }
+
+// TwoClones: two clones taken from the same parent do not influence each other (nor the parent):
+// clone A, after clone B has been worked on, ends up exactly like a lone clone of an identical
+// parent that received the same calls. nrefs = number of still unresolved references to L0 (relative)
+// and L1 (absolute) the parent holds when it is cloned.
+func TwoClones(nrefs int, listing int) {
+	mk := func(tag string) *asm.Emitter {
+		e := asm.NewEmitter(vp.Bytes("buf"+tag, 48), listing == 1)
+		for i := 0; i < nrefs; i++ {
+			e.BNE("L0")
+			e.JMP_abs("L1")
+		}
+		return e
+	}
+	p1, p2 := mk("1"), mk("2")
+	before := snapshot(p1)
+	a := p1.Clone(vp.Bytes("bufA", 32))
+	b := p1.Clone(vp.Bytes("bufB", 32))
+	lone := p2.Clone(vp.Bytes("bufL", 32))
+	work := func(e *asm.Emitter, v uint8) {
+		e.BNE("L0")
+		e.JMP_abs("L1")
+		e.EmitBytes([]byte{v})
+	}
+	va, vb := vp.U8("va"), vp.U8("vb")
+	work(a, va)
+	b.NOP()     // b's references sit at other addresses than a's ...
+	work(b, vb) // ... and must not land in a's lists
+	b.BEQ("L0")
+	finish := func(e *asm.Emitter) {
+		e.Label("L0")
+		e.NOP()
+		e.Label("L1")
+	}
+	work(lone, va)
+	finish(a)
+	finish(lone)
+	vp.Assert("parent-unaffected-by-its-clones", same(before, snapshot(p1)))
+	p1.Append(a)
+	p2.Append(lone)
+	e1, e2 := p1.Finalize(), p2.Finalize()
+	vp.Assert("same-finalize-outcome", (e1 == nil) == (e2 == nil) && e1 == nil)
+	s1, s2 := snapshot(p1), snapshot(p2)
+	vp.Assert("clone-unaffected-by-a-sibling-clone", s1.n == s2.n && s1.pc == s2.pc && vp.BytesEqual(s1.bytes, s2.bytes) && vp.BytesEqual(s1.text, s2.text))
+	vp.Reach("end")
+}
